@@ -70,7 +70,8 @@ def _ent(rng, rel, isdir):
              lchanged=rng.random() < 0.35 and lobj is not None,
              lexists=rng.choice(["EXISTS", "EXISTS", "UNKNOWN", "TRASHED", "MISSING", "LIKELY_TRASHED"]) if lobj else "UNKNOWN",
              lsync_hash=rng.choice(["same", "same", "other", None]) if lobj else None,
-             lsync_path=rng.choice(["same", "same", "other", None]) if lobj else None,
+             # (a remote-only entry may carry a stale local sync_path: never produced by clear(), but the gate must not care)
+             lsync_path=rng.choice(["same", "same", "other", None]) if lobj else rng.choice([None, None, None, "other"]),
              rchanged=rng.random() < 0.6,
              rexists=rng.choice(["EXISTS", "EXISTS", "EXISTS", "UNKNOWN", "TRASHED", "MISSING"]),
              rsync_hash=rng.choice(["same", None]),
